@@ -7,6 +7,7 @@ import AlgoVerif.Proofs.C16Store
 import AlgoVerif.Proofs.C16HeapSim
 import AlgoVerif.Proofs.C16Format
 import AlgoVerif.Generated.C16
+import AlgoVerif.Proofs.C16Gen
 /-!
 # C16 — property theorems (helper lemmas in `Proofs/C16*.lean`)
 
@@ -747,3 +748,244 @@ example : ∃ PS g', (FmtSet.mk exAsc (fun ms => toString ms.length)).powerset r
   intro T hT
   have := ((C16_format_of_powerset_members revShuffle (FmtSet.mk exAsc (fun ms => toString ms.length)) ()).1 _ _ hx).2.1 T hT
   simp only [FmtSet.string, this]
+
+/-! ## one call per value = one variadic call; a traversal changes no set
+
+The threshold families of the correspondence build and shrink sets both ways (`addseq`/`removeseq`: one `Add` /
+`Remove` call per value, `addvar`/`removevar`: one variadic call) and use iterators in the ways a `for range`
+loop does not (`all2`, `allnest`, `allpull`, `allbreak` of `Driver/C16.lean`, all compositions of `stepOp (.all i)`). -/
+
+/-- `for _, v := range vs { s.Add(v) }` is `s.Add(vs...)` — for every implementation and every callback (lawful or
+not), the panicking and the diverging outcomes included -/
+theorem C16_add_one_by_one {α : Type} (s : MSet α) (vs : List α) : addEach s vs = s.add vs := by
+  induction vs generalizing s with
+  | nil => rfl
+  | cons v vs ih =>
+    simp only [addEach, MSet.add, bind, Outcome.bind]
+    cases s.add1 v <;> simp [ih]
+
+example : addEach exAsc [4, 1, 0, 4] = exAsc.add [4, 1, 0, 4] ∧
+    (exAsc.add [4, 1, 0, 4]).map (·.members) = .ok [0, 1, 3, 4, 5] :=
+  ⟨C16_add_one_by_one _ _, by decide⟩
+
+/-- `for _, v := range vs { s.Remove(v) }` is `s.Remove(vs...)` -/
+theorem C16_remove_one_by_one {α : Type} (s : MSet α) (vs : List α) : removeEach s vs = s.remove vs := by
+  induction vs generalizing s with
+  | nil => rfl
+  | cons v vs ih =>
+    simp only [removeEach, MSet.remove, bind, Outcome.bind]
+    cases s.remove1 v <;> simp [ih]
+
+example : removeEach exStable [4, 9, 5] = exStable.remove [4, 9, 5] ∧
+    (exStable.remove [4, 9, 5]).map (·.members) = .ok [1] :=
+  ⟨C16_remove_one_by_one _ _, by decide⟩
+
+/-- `All()` — run to the end or abandoned, once or twice, nested in or interleaved with another traversal — leaves
+every set object as it is: the only state it touches is the shuffle source -/
+theorem C16_all_changes_no_set {α σ : Type} (sh : Shuffle σ) (regs regs' : List (MSet α)) (g g' : σ) (i : Nat)
+    (obs : Obs α) (h : stepOp sh (regs, g) (.all i) = .ok ((regs', g'), obs)) : regs' = regs := by
+  simp only [stepOp] at h
+  split at h
+  · cases h; rfl
+  · simp only [bind, Outcome.bind] at h
+    split at h <;> cases h
+    rfl
+
+example : (stepOp revShuffle ([exUnordered, exAsc], ()) (.all 0)).isOk = true ∧
+    ∀ regs' g' obs, stepOp revShuffle ([exUnordered, exAsc], ()) (.all 0) = .ok ((regs', g'), obs) →
+      regs' = [exUnordered, exAsc] :=
+  ⟨by decide, fun _ _ _ h => C16_all_changes_no_set _ _ _ _ _ _ _ h⟩
+
+/-! ## the single-set methods GENERATED from `set/set.go` and `set/stable.go`
+
+`AlgoVerif.Generated.Set.*` (file `Generated/C16Gen.lean`) is produced from `/repo/set/{set,stable}.go` by the translator
+`/verif/extract/go2lean` on every run of this check (`bin/pre-C16`; scheme, subset and what is trusted: header of
+`extract/go2lean/main.go`): `find`, `Contains`, `Add`, `Remove`, `RemoveAll`, `Clone`, `CloneEmpty`, `Size`, `IsEmpty`,
+`AnyMatch`, `AllMatch`, `FirstMatch` (and `String`, which only applies the format callback) of both types.  `Gen.toM` /
+`Gen.toM_st` read a generated object as the hand Model's; the callback is a pure function, as the translator assumes of
+every function value.  `C16_generated_*_refines`: the generated method and the hand Model's compute the same outcome
+for EVERY object, callback and argument list (no invariant assumed).  `C16_generated_add` … restate the C16 facts for
+valid objects. -/
+
+open AlgoVerif.Generated AlgoVerif.C16.Gen
+
+theorem C16_generated_set_refines {α : Type} [Inhabited α] (s : Set.set α) (vals : Array α) (v : α) (p : α → Bool) :
+    Set.set.find s v = (toM s).find v ∧
+    Set.set.Contains s vals = (toM s).contains vals.toList ∧
+    (Set.set.Add s vals).map toM = (toM s).add vals.toList ∧
+    (Set.set.Remove s vals).map toM = (toM s).remove vals.toList ∧
+    (Set.set.RemoveAll s).map toM = .ok (toM s).removeAll ∧
+    (Set.set.Clone s).map toM = .ok (toM s).clone ∧
+    (Set.set.CloneEmpty s).map toM = .ok (toM s).cloneEmpty ∧
+    Set.set.Size s = (toM s).size ∧ Set.set.IsEmpty s = (toM s).isEmpty ∧
+    Set.set.AnyMatch s p = .ok ((toM s).anyMatch p) ∧
+    Set.set.AllMatch s p = .ok ((toM s).allMatch p) ∧
+    (Set.set.FirstMatch s p).map optOf = .ok ((toM s).firstMatch p) :=
+  ⟨find_eq s v, Contains_eq s vals, Add_eq s vals, Remove_eq s vals, RemoveAll_eq s, Clone_eq s, CloneEmpty_eq s,
+    Size_eq s, IsEmpty_eq s, AnyMatch_eq s p, AllMatch_eq s p, FirstMatch_eq s p⟩
+
+theorem C16_generated_stable_refines {α : Type} [Inhabited α] (s : Set.stable α) (vals : Array α) (v : α) (p : α → Bool) :
+    Set.stable.find s v = (toM_st s).find v ∧
+    Set.stable.Contains s vals = (toM_st s).contains vals.toList ∧
+    (Set.stable.Add s vals).map toM_st = (toM_st s).add vals.toList ∧
+    (Set.stable.Remove s vals).map toM_st = (toM_st s).remove vals.toList ∧
+    (Set.stable.RemoveAll s).map toM_st = .ok (toM_st s).removeAll ∧
+    (Set.stable.Clone s).map toM_st = .ok (toM_st s).clone ∧
+    (Set.stable.CloneEmpty s).map toM_st = .ok (toM_st s).cloneEmpty ∧
+    Set.stable.Size s = (toM_st s).size ∧ Set.stable.IsEmpty s = (toM_st s).isEmpty ∧
+    Set.stable.AnyMatch s p = .ok ((toM_st s).anyMatch p) ∧
+    Set.stable.AllMatch s p = .ok ((toM_st s).allMatch p) ∧
+    (Set.stable.FirstMatch s p).map optOf = .ok ((toM_st s).firstMatch p) :=
+  ⟨find_eq_st s v, Contains_eq_st s vals, Add_eq_st s vals, Remove_eq_st s vals, RemoveAll_eq_st s, Clone_eq_st s,
+    CloneEmpty_eq_st s, Size_eq_st s, IsEmpty_eq_st s, AnyMatch_eq_st s p, AllMatch_eq_st s p, FirstMatch_eq_st s p⟩
+
+/-- `Add(vals...)` of a valid `set` object, on the generated method: it returns, the result is valid and denotes the
+old set with the values inserted -/
+theorem C16_generated_add {α : Type} [Inhabited α] [DecidableEq α] (s : Set.set α) (h : WF0 (toM s)) (vals : Array α) :
+    ∃ s', Set.set.Add s vals = .ok s' ∧ WF0 (toM s') ∧
+      FSet.Equiv s'.members.toList (FSet.insertAll s.members.toList vals.toList) := by
+  obtain ⟨m', h1, hw, -, he⟩ := C16_add_refines h vals.toList
+  have := Add_eq s vals
+  rw [h1] at this
+  cases hs : Set.set.Add s vals with
+  | ok s' => rw [hs] at this; cases this; exact ⟨s', rfl, hw, he⟩
+  | panic => rw [hs] at this; cases this
+  | diverge => rw [hs] at this; cases this
+
+/-- `Remove(vals...)` of a valid `set` object, on the generated method: the members without the values, in order -/
+theorem C16_generated_remove {α : Type} [Inhabited α] [DecidableEq α] (s : Set.set α) (h : WF0 (toM s)) (vals : Array α) :
+    ∃ s', Set.set.Remove s vals = .ok s' ∧ WF0 (toM s') ∧
+      s'.members.toList = FSet.eraseAll s.members.toList vals.toList := by
+  obtain ⟨m', h1, hw, -, he⟩ := C16_remove_refines h vals.toList
+  have := Remove_eq s vals
+  rw [h1] at this
+  cases hs : Set.set.Remove s vals with
+  | ok s' => rw [hs] at this; cases this; exact ⟨s', rfl, hw, he⟩
+  | panic => rw [hs] at this; cases this
+  | diverge => rw [hs] at this; cases this
+
+/-- `Contains(vals...)` of a valid `set` object, on the generated method -/
+theorem C16_generated_contains {α : Type} [Inhabited α] [DecidableEq α] (s : Set.set α) (h : WF0 (toM s)) (vals : Array α) :
+    Set.set.Contains s vals = .ok (FSet.memAll s.members.toList vals.toList) := by
+  rw [Contains_eq]; exact C16_contains_refines h vals.toList
+
+example : Set.set.Contains (⟨#[3, 1, 4], fun a b => a == b, fun _ => []⟩ : Set.set Int) #[4, 3] = .ok true ∧
+    (Set.set.Remove (⟨#[3, 1, 4], fun a b => a == b, fun _ => []⟩ : Set.set Int) #[1, 9]).map (·.members) = .ok #[3, 4] ∧
+    (Set.stable.Add (⟨#[3, 1], fun a b => a == b, fun _ => []⟩ : Set.stable Int) #[1, 7, 7]).map (·.members) = .ok #[3, 1, 7] := by
+  decide
+
+/-! ### round 3: `sorted.go`, and the methods that take or return other sets
+
+The same generated file now also holds `set/sorted.go` and, for all three types, `Equal`, `SelectMatch`, `PartitionMatch`;
+for `stable` and `sorted` also `IsSubset`, `IsSuperset`, `Union`, `Difference`.  Dynamic dispatch is resolved by
+`extract/go2lean/devirt.go`; the one ASSUMPTION is that an argument of type `Set[T]` holds the receiver's own
+implementation (two `stable` sets, two `sorted` sets, …) — the statements below are about such calls.  `stable` /
+`sorted` iterate in stored order, so the generator state `g` of the hand Model is returned unchanged.  For `sorted` the
+binary searches draw on the method's fuel: `x = diverge ∨ x = y` for every fuel covering the longest member list that
+occurs (`total sets 0` = the number of members of all operands). -/
+
+theorem C16_generated_set_binary_refines {α : Type} [Inhabited α] (s rhs : Set.set α) (p : α → Bool) :
+    Set.set.Equal s rhs = (toM s).equal (toM rhs) ∧
+    (Set.set.SelectMatch s p).map toM = (toM s).selectMatch p ∧
+    (Set.set.PartitionMatch s p).map toM2 = (toM s).partitionMatch p :=
+  ⟨Equal_eq s rhs, SelectMatch_eq s p, PartitionMatch_eq s p⟩
+
+theorem C16_generated_stable_binary_refines {α σ : Type} [Inhabited α] (sh : Shuffle σ) (g : σ) (s rhs : Set.stable α)
+    (sets : Array (Set.stable α)) (p : α → Bool) :
+    Set.stable.Equal s rhs = (toM_st s).equal (toM_st rhs) ∧
+    (Set.stable.SelectMatch s p).map toM_st = (toM_st s).selectMatch p ∧
+    (Set.stable.PartitionMatch s p).map toM2_st = (toM_st s).partitionMatch p ∧
+    (toM_st s).isSubset sh (toM_st rhs) g = (Set.stable.IsSubset s rhs).map (fun b => (b, g)) ∧
+    (toM_st s).isSuperset sh (toM_st rhs) g = (Set.stable.IsSuperset s rhs).map (fun b => (b, g)) ∧
+    (toM_st s).union sh (sets.toList.map toM_st) g = (Set.stable.Union s sets).map (fun t => (toM_st t, g)) ∧
+    (toM_st s).difference sh (sets.toList.map toM_st) g = (Set.stable.Difference s sets).map (fun t => (toM_st t, g)) :=
+  ⟨Equal_eq_st s rhs, SelectMatch_eq_st s p, PartitionMatch_eq_st s p, IsSubset_eq_st sh s rhs g,
+    IsSuperset_eq_st sh s rhs g, Union_eq_st sh s sets g, Difference_eq_st sh s sets g⟩
+
+/-- `sorted`: the single-set methods (those without a search are equalities) -/
+theorem C16_generated_sorted_refines {α : Type} [Inhabited α] (s : Set.sorted α) (vals : Array α) (v : α) (p : α → Bool)
+    (fuel : Nat) (hf : s.members.size + vals.size + 1 ≤ fuel) :
+    ((toM_so s).find v = .diverge ∨ (toM_so s).find v = Set.sorted.find fuel s v) ∧
+    ((toM_so s).contains vals.toList = .diverge ∨ (toM_so s).contains vals.toList = Set.sorted.Contains fuel s vals) ∧
+    ((toM_so s).add vals.toList = .diverge ∨ (toM_so s).add vals.toList = (Set.sorted.Add fuel s vals).map toM_so) ∧
+    ((toM_so s).remove vals.toList = .diverge ∨ (toM_so s).remove vals.toList = (Set.sorted.Remove fuel s vals).map toM_so) ∧
+    (Set.sorted.RemoveAll s).map toM_so = .ok (toM_so s).removeAll ∧
+    (Set.sorted.Clone s).map toM_so = .ok (toM_so s).clone ∧
+    (Set.sorted.CloneEmpty s).map toM_so = .ok (toM_so s).cloneEmpty ∧
+    Set.sorted.Size s = (toM_so s).size ∧ Set.sorted.IsEmpty s = (toM_so s).isEmpty ∧
+    Set.sorted.AnyMatch s p = .ok ((toM_so s).anyMatch p) ∧
+    Set.sorted.AllMatch s p = .ok ((toM_so s).allMatch p) ∧
+    (Set.sorted.FirstMatch s p).map optOf = .ok ((toM_so s).firstMatch p) ∧
+    ((toM_so s).selectMatch p = .diverge ∨ (toM_so s).selectMatch p = (Set.sorted.SelectMatch fuel s p).map toM_so) ∧
+    ((toM_so s).partitionMatch p = .diverge ∨
+      (toM_so s).partitionMatch p = (Set.sorted.PartitionMatch fuel s p).map toM2_so) :=
+  ⟨find_le_so s v fuel (by omega), Contains_le_so s vals fuel (by omega), Add_le_so s vals fuel hf,
+    Remove_le_so s vals fuel (by omega), RemoveAll_eq_so s, Clone_eq_so s, CloneEmpty_eq_so s, Size_eq_so s, IsEmpty_eq_so s,
+    AnyMatch_eq_so s p, AllMatch_eq_so s p, FirstMatch_eq_so s p, SelectMatch_le_so s p fuel (by omega),
+    PartitionMatch_le_so s p fuel (by omega)⟩
+
+/-- `sorted`: the methods with other `sorted` sets as arguments -/
+theorem C16_generated_sorted_binary_refines {α σ : Type} [Inhabited α] (sh : Shuffle σ) (g : σ) (s rhs : Set.sorted α)
+    (sets : Array (Set.sorted α)) (fuel : Nat) (h1 : s.members.size + total sets 0 + 1 ≤ fuel)
+    (h2 : rhs.members.size + 1 ≤ fuel) :
+    ((toM_so s).equal (toM_so rhs) = .diverge ∨ (toM_so s).equal (toM_so rhs) = Set.sorted.Equal fuel s rhs) ∧
+    ((toM_so s).isSubset sh (toM_so rhs) g = .diverge ∨
+      (toM_so s).isSubset sh (toM_so rhs) g = (Set.sorted.IsSubset fuel s rhs).map (fun b => (b, g))) ∧
+    ((toM_so s).isSuperset sh (toM_so rhs) g = .diverge ∨
+      (toM_so s).isSuperset sh (toM_so rhs) g = (Set.sorted.IsSuperset fuel s rhs).map (fun b => (b, g))) ∧
+    ((toM_so s).union sh (sets.toList.map toM_so) g = .diverge ∨
+      (toM_so s).union sh (sets.toList.map toM_so) g = (Set.sorted.Union fuel s sets).map (fun t => (toM_so t, g))) ∧
+    ((toM_so s).difference sh (sets.toList.map toM_so) g = .diverge ∨
+      (toM_so s).difference sh (sets.toList.map toM_so) g =
+        (Set.sorted.Difference fuel s sets).map (fun t => (toM_so t, g))) :=
+  ⟨Equal_le_so s rhs fuel h2, IsSubset_le_so sh s rhs g fuel h2, IsSuperset_le_so sh s rhs g fuel (by omega),
+    Union_le_so sh s sets g fuel h1, Difference_le_so sh s sets g fuel (by omega)⟩
+
+/-- `Add(vals...)` of a valid `sorted` object on the generated method: it returns (the searches stay within the
+fuel), the result is valid — in particular still sorted — and denotes the old set with the values inserted -/
+theorem C16_generated_sorted_add {α : Type} [Inhabited α] [DecidableEq α] (s : Set.sorted α) (h : WF0 (toM_so s))
+    (vals : Array α) (fuel : Nat) (hf : s.members.size + vals.size + 1 ≤ fuel) :
+    ∃ s', Set.sorted.Add fuel s vals = .ok s' ∧ WF0 (toM_so s') ∧
+      FSet.Equiv s'.members.toList (FSet.insertAll s.members.toList vals.toList) := by
+  obtain ⟨m', h1, hw, -, he⟩ := C16_add_refines h vals.toList
+  have := Outcome.le.ok (Add_le_so s vals fuel hf) h1
+  cases hs : Set.sorted.Add fuel s vals with
+  | ok s' => rw [hs] at this; cases this; exact ⟨s', rfl, hw, he⟩
+  | panic => rw [hs] at this; cases this
+  | diverge => rw [hs] at this; cases this
+
+/-- `Equal` of two valid `stable` objects on the generated method decides equality of the denoted sets -/
+theorem C16_generated_stable_equal {α : Type} [Inhabited α] [DecidableEq α] (s t : Set.stable α)
+    (hs : WF0 (toM_st s)) (ht : WF0 (toM_st t)) :
+    Set.stable.Equal s t = .ok (FSet.eq s.members.toList t.members.toList) := by
+  rw [Equal_eq_st]; exact C16_equal_refines hs ht
+
+/-- `Union` of valid `sorted` objects on the generated method: a valid `sorted` set denoting the union -/
+theorem C16_generated_sorted_union {α : Type} [Inhabited α] [DecidableEq α] (s : Set.sorted α) (sets : Array (Set.sorted α))
+    (h : WF0 (toM_so s)) (hsets : ∀ u ∈ sets.toList, WF0 (toM_so u)) (fuel : Nat)
+    (hf : s.members.size + total sets 0 + 1 ≤ fuel) :
+    ∃ t, Set.sorted.Union fuel s sets = .ok t ∧ WF0 (toM_so t) ∧
+      FSet.Equiv t.members.toList (FSet.unionAll s.members.toList (sets.toList.map (·.members.toList))) := by
+  have hsh : ShLaw (fun (n : Nat) (u : Unit) => (List.range n, u)) := by
+    intro n u; exact List.Perm.refl _
+  obtain ⟨m, g', h1, hw, -, he⟩ := C16_union_spec hsh h (sets.toList.map toM_so)
+    (by intro u hu; obtain ⟨x, hx, rfl⟩ := List.mem_map.1 hu; exact hsets x hx) ()
+  have := Outcome.le.ok (Union_le_so _ s sets () fuel hf) h1
+  cases hs : Set.sorted.Union fuel s sets with
+  | ok t =>
+    rw [hs] at this
+    simp only [Outcome.map_ok, Outcome.ok.injEq, Prod.mk.injEq] at this
+    obtain ⟨rfl, -⟩ := this
+    refine ⟨t, rfl, hw, ?_⟩
+    have e : List.map (fun x => x.members) (List.map toM_so sets.toList) = List.map (fun x => x.members.toList) sets.toList := by
+      rw [List.map_map]; rfl
+    rw [e] at he
+    exact he
+  | panic => rw [hs] at this; cases this
+  | diverge => rw [hs] at this; cases this
+
+example : (Set.sorted.Add 9 (⟨#[1, 5], fun a b => a - b, fun _ => []⟩ : Set.sorted Int) #[3, 5, 0]).map (·.members) = .ok #[0, 1, 3, 5] ∧
+    Set.stable.Equal (⟨#[2, 7], fun a b => a == b, fun _ => []⟩ : Set.stable Int) ⟨#[7, 2], fun a b => a == b, fun _ => []⟩ = .ok true ∧
+    (Set.sorted.Union 9 (⟨#[1, 5], fun a b => a - b, fun _ => []⟩ : Set.sorted Int)
+        #[⟨#[0, 5], fun a b => a - b, fun _ => []⟩, ⟨#[9], fun a b => a - b, fun _ => []⟩]).map (·.members) = .ok #[0, 1, 5, 9] := by
+  decide
